@@ -39,6 +39,13 @@ var c20MsgDirty = []struct {
 	{"body", func(m socket.Message) { m.SetBody(dirtyMark) }},
 	{"newbody", func(m socket.Message) { m.SetNewBody(func(socket.Header) interface{} { s := dirtyMark; return &s }) }},
 	{"pipe", func(m socket.Message) { m.XferPipe().Append('g', 'm') }},
+	{"pipe1", func(m socket.Message) { m.XferPipe().Append('g') }},
+	{"look", func(m socket.Message) {
+		// the first user reads the message back (logging, packing): derived views may get cached
+		_ = m.XferPipe().IDs()
+		_ = m.Meta().QueryString()
+		_ = m.String()
+	}},
 	{"size", func(m socket.Message) { m.SetSize(4242) }},
 	{"ctx", func(m socket.Message) {
 		socket.WithContext(context.WithValue(context.Background(), ctxKey{}, dirtyMark))(m)
